@@ -175,3 +175,38 @@ def replay_c(payload):
 
 
 replay = replay_c
+
+
+# ------------------------------------------------------------------ negative controls (engine/cvc/selftest.py)
+
+class _WrongGen(CR.HopSeqGen):
+    """deliberately wrong: T' is not reduced modulo 2^NBIN (the mutant `tp = t->t3` as a specification)"""
+    cases = (("hop", 3),)
+
+    def spec_mai(self, c):
+        a = c.a
+        t1, t2, t3, _ = G.gsm_time(c.fn)
+        m = t2 + M.rntable(M.xor6(a.hsn, t1 % 64) + t3)
+        mp = m % 8
+        s = z3.If(mp < a.n, mp, (mp + t3) % a.n)
+        return (s + a.maio) % a.n
+
+
+class _WrongMask(CR.PowNbinMask):
+    """deliberately wrong: claims 2^NBIN instead of 2^NBIN - 1"""
+    cases = (("n", 5), ("n", 64))
+
+    def returns(self, c, old):
+        return 1 << M.nbin(c.case[1])
+
+
+WRONG_POSTS = [
+    ("rfch_hop_seq_gen: T' not masked", lambda run: K.verify(run, ID, frontend.parse_file(CR.RFCH, "fw"), _WrongGen), "rfch_hop_seq_gen/post."),
+    ("pow_nbin_mask: 2^NBIN", lambda run: K.verify(run, ID, frontend.parse_file(CR.RFCH, "fw"), _WrongMask), "post.returns_exactly"),
+]
+MUTANTS = [
+    (CR.RFCH, "tp = t->t3 & pnm;", "tp = t->t3;", "rfch_hop_seq_gen_post."),
+    (CR.RFCH, "117, 114,   4,  90", "117, 114,   4,  91", "rn_table_table.entry_k_83"),
+    (CR.RFCH, "(n >> 6);", "(n >> 7);", "pow_nbin_mask_post.returns_exactly"),
+    (CR.RFCH, "mai = (s + maio) % n;", "mai = (s + maio) % (n + 1);", "rfch_hop_seq_gen"),
+]
